@@ -1136,7 +1136,9 @@ def gen_direction_cases(seed, tier, full=False):
                             total = 3000
                     else:
                         T = rng.choice([25, 120]) if not loops else rng.choice([25, 80])
-                        total = 700
+                        total = 500
+                        if fam == 'adaptive_bounded_eigenvector':
+                            T, total = rng.choice([25, 50]), 400        # ~0.1 ms per draw in its rejection loop
                     nsteps = max(total, k * (st + T) + 50)
                     if thorough:
                         nsteps = min(nsteps, 20000)
